@@ -55,6 +55,9 @@ OTHER_MUTANTS = [
     ("generators share one global random stream", "MC_Generator.tla", "GenSpec",
      {"Gens": "{1, 2}", "Seeds": "{11}", "MaxCalls": 3, "RngDesign": '"global"'},
      ["Inv_C19_SameSeedSameSequence"], "Inv_C19_SameSeedSameSequence"),
+    ("iteration counter rewound when a pass ends instead of when one starts", "MC_GeneratorIter.tla", "IterSpec",
+     {"Limit": 2, "MaxLen": 6, "IterDesign": '"rewind-on-stop"'},
+     ["Inv_C19_PassYieldsExactlyLimit"], "Inv_C19_PassYieldsExactlyLimit"),
     ("frames loaded by plain string sort", "Viz.tla", "VizSpec", {"SortScheme": '"lex"'},
      ["Inv_C20_FrameOrder"], "Inv_C20_FrameOrder"),
 ]
